@@ -550,7 +550,7 @@ func (p *Program) effectsOpt(fn *ssa.Function, keepFresh bool) []string {
 			}
 			out = append(out, a+" = "+p.Render(x.Val))
 		case *ssa.MapUpdate:
-			if _, ok := x.Map.(*ssa.MakeMap); ok {
+			if _, ok := x.Map.(*ssa.MakeMap); ok && !keepFresh {
 				return
 			}
 			m := p.Render(x.Map)
